@@ -129,6 +129,9 @@ def zero_case(rng, tier):
     if "v1_order" in case:
         case["v1_order"] = case["v1_order"] + ["zz-last-empty"]
     case["zero_ok"] = True
+    # damaged content is addressed by an unambiguous path (see rechecking.make_case)
+    case.pop("parent_like_name", None)
+    case.pop("case_sibling", None)
     case["damage"] = rc.make_damage(rng, files, case["pl"], 1, False, rng.randrange(1, 4),
                                     case.get("v1_order"), zero_ok=True)
     return case
